@@ -57,7 +57,7 @@ def runIsa (line : String) : String :=
   match line.splitOn " " with
   | ["step", pc, a, b, o, mem] =>
     let sp := (parseSparse mem).filter (·.1 < memWords)
-    if (parseSparse mem).any (fun p => p.1 ≥ memWords ∧ p.2 != 0) then "skip planted-above-200000" else
+    -- words planted at or above 200000 do not exist in the ISA's memory; an in-range RTL step must not see them
     let s : Isa.St := { pc := word pc, a := word a, b := word b, o := word o, mem := memOfSparseIsa sp }
     match isaObs s (sp.map (·.1)) with
     | .ok (l, _) => l
